@@ -250,7 +250,8 @@ Definition gstep (st : gstate) (l : glabel) : gstate * gout :=
     match g_phase st with
     | GFresh =>
       match new with
-      | None => (mkG GWait (g_rest st) APend (g_tasks st) [] [], nothing)  (* anext = ensure_future(...) *)
+      | None => (* `done = set(); pending = set()` (empty since [ginit]); anext = ensure_future(...) *)
+                (mkG GWait (g_rest st) APend (g_tasks st) (g_pending st) (g_done st), nothing)
       | Some _ => (st, ((false, []), GVErr))    (* TypeError: non-None to a just-started generator *)
       end
     | GItem =>
